@@ -71,7 +71,7 @@ def view(ap, eff, sc):
 def run(ctx):
     nob, ndis, failing, files = common.obligations(ctx, PROPS)
     base = []
-    for fam, nq, nt in (("core", 40, 400), ("subslot", 30, 300), ("limits", 30, 300), ("coredeps", 30, 300), ("scentrees", 40, 300)):
+    for fam, nq, nt in (("core", 40, 400), ("subslot", 30, 300), ("limits", 30, 300), ("coredeps", 30, 300), ("scentrees", 40, 300), ("grouphours", 30, 200)):
         base += gens.family(ctx, fam, ctx.n(nq, nt))
     multi, metas, singles = [], [], []
     for ap in base:
@@ -96,6 +96,17 @@ def run(ctx):
                     key = ctx.rng.choice(["effort", "effort", "start"] if ap.get("_family") != "scentrees" else ["start", "start", "effort"]) if n.get("start") is None else "effort"
                     val = ctx.rng.choice([60, 120, 240, 480, 90]) if key == "effort" else ap["start"] + ctx.rng.randint(1, 8) * 86400 + 10 * 3600
                     overrides[(p, s, key)] = val
+        # a task that is a dated milestone without work in the first scenario and has work in a later one
+        if len(order) >= 2 and not short:
+            for p, n in leaves:
+                if ctx.rng.random() < 0.15 and not any(k[0] == p and k[2] == "start" for k in overrides):
+                    sc_ = ctx.rng.choice(order[1:])
+                    overrides[(p, sc_, "effort")] = n["effort"]
+                    for k in [k for k in overrides if k[0] == p and k[2] == "effort" and k[1] == order[0]]:
+                        del overrides[k]
+                    del n["effort"]
+                    if n.get("start") is None:
+                        n["start"] = ap["start"] + ctx.rng.randint(0, 6) * 86400 + ctx.rng.choice([9, 10, 14]) * 3600
         # written in random order (descendant before ancestor is allowed)
         items = list(overrides.items())
         ctx.rng.shuffle(items)
@@ -162,7 +173,7 @@ def run(ctx):
         violations.append({"no_input": True, "replay": common.write_replay(ctx, {"property": "C16", "kind": "proof obligation no longer checks; no failing input found", "failing_obligations": failing})})
     cov = {"obligations": nob, "discharged": ndis, "checker_cmd": "tools/coqbuild.sh (coqc 8.16.1 full .vo build)", "trusted_base": common.TRUSTED, "files": files,
            "traces_validated_against_impl": stats["compared"], "input_distribution": dict(stats), "findings": len(bad),
-           "rule": "projects with 2-5 scenarios in random nesting, scenario-specific effort/start overrides on random tasks (incl. starts on leaves below dated containers) for random scenarios written in random order; every scenario of the multi-scenario run is compared (dates, scheduled flags and the complete usage ledger) with a single-scenario run of the project in which every attribute has the value written for that scenario, else for its nearest ancestor scenario, else the unprefixed value - these effective values are computed by the extracted Model/Scenario.v (eff), not by the harness",
+           "rule": "projects with 2-5 scenarios in random nesting, scenario-specific effort/start overrides on random tasks (incl. starts on leaves below dated containers, and tasks that are dated milestones without work in the first scenario and have work in a later one) for random scenarios written in random order; every scenario of the multi-scenario run is compared (dates, scheduled flags and the complete usage ledger) with a single-scenario run of the project in which every attribute has the value written for that scenario, else for its nearest ancestor scenario, else the unprefixed value - these effective values are computed by the extracted Model/Scenario.v (eff), not by the harness",
            "samples": [{"project": projects.render(multi[0])[:900]}]}
     common.finish(ctx, "proof", cov, violations,
                   ["partial: that different scenarios use distinct ledger / counter objects is observed through the comparison of complete ledgers, not proved about Python object identity",
